@@ -27,7 +27,7 @@ prop("C20",
      assumptions=["verify (pub s) m (sign s m) = true", "length s = 32 -> length (pub s) = 32",
                   "a random source is modelled as the finite byte string it delivers before failing"])
 
-SRC_DEPS = ["GoSem.v", "GeneratedFn.v", "GenFnProofs.v", "SourceLevelProofs.v", "GenFnSetProofs.v", "SourceLevelSetProofs.v", "GenFnEvalProofs.v", "SourceLevelEvalProofs.v", "SourceLevelEvalClosedProofs.v", "GenFnEvalStaticProofs.v", "SourceLevelEvalStaticProofs.v", "SourceLevelEvalStaticClosedProofs.v", "DEval.v", "DEvalProofs.v", "DTerm.v", "Symbols.v", "SymbolsProofs.v"]
+SRC_DEPS = ["GoSem.v", "GoMap.v", "GenFnMapProofs.v", "GeneratedFn.v", "GenFnProofs.v", "SourceLevelProofs.v", "GenFnSetProofs.v", "SourceLevelSetProofs.v", "GenFnEvalProofs.v", "SourceLevelEvalProofs.v", "SourceLevelEvalClosedProofs.v", "GenFnEvalStaticProofs.v", "SourceLevelEvalStaticProofs.v", "SourceLevelEvalStaticClosedProofs.v", "DEval.v", "DEvalProofs.v", "DTerm.v", "Symbols.v", "SymbolsProofs.v"]
 SRC_TRUSTED = "source translator /verif/genfn (go/parser, go/ast; its own type inference; documented subset in notes/GENFN.md): trusted to translate the Go text of datalog/symbol.go, of the operator Eval functions and of the stack machine (*Expression).Evaluate (with stack.Push/Pop and the dispatch over the implementors of Op, UnaryOpFunc, BinaryOpFunc) of datalog/expressions.go into the Gallina definitions of coq/GeneratedFn.v over the prelude Model/GoSem.v (fixed-width arithmetic made explicit, index out of range = Panic outcome, math/big = Z, strings/regexp calls = the model's byte-string functions and the rx oracle, error values = error classes); slice capacity and aliasing are not in that translation"
 prop("C06", source_level=True,
      coq_deps=["Base.v", "Term.v", "Expr.v", "Corr.v", "ExprProofs.v", "TableProofs.v", "Generated.v"] + SRC_DEPS,
@@ -97,7 +97,8 @@ prop("C05", source_level=True,
                "C05_source_predicate_equal", "C05_source_predicate_match", "C05_source_factset_insert", "C05_source_factset_insert_all",
                "C05_source_factset_equal", "C05_source_advance_indexes", "C05_source_advance_indexes_total", "C05_source_insert_no_duplicates",
                "C05_source_insert_all_no_duplicates", "C05_source_insert_keeps_existing", "C05_source_insert_then_member",
-               "C05_source_match_symmetric", "C05_source_equal_symmetric", "C05_source_equal_implies_match"],
+               "C05_source_match_symmetric", "C05_source_equal_symmetric", "C05_source_equal_implies_match",
+               "C05_source_matched_variables_insert", "C05_source_insert_is_bind_step", "C05_source_insert_consistent", "C05_source_insert_fresh"],
      trusted=[SRC_TRUSTED + "; for C05 (stage E) also Predicate.Equal, Predicate.Match, FactSet.Insert/InsertAll/Equal and the odometer's carry step "
               "advanceIndexes of datalog/datalog.go (the struct Predicate is the model record dpred, its declaration is checked against that; "
               "`for i := e; i >= 0; i--` is a descending loop; `(*p)[i] = v` is an update of the list, out of range = Panic; other aliases of a "
@@ -114,7 +115,8 @@ prop("C05", source_level=True,
                   "base facts pairwise different (NoDupA), runs within limits",
                   "source-level statements (Properties/C05_source_level.v): Predicate.Equal/Match and FactSet.Insert/InsertAll/Equal equal the model for "
                   "ALL inputs (in particular p2.Terms[i] cannot panic); advanceIndexes equals the model's `advance` when *current is inside indexes and "
-                  "below 2^63; Rule.Apply / combine (goroutines, channels), MatchedVariables (map writes) and World.Run are not translated: for them "
+                  "below 2^63; MatchedVariables.Insert equals one step of the model's bind_terms_D (a map[Variable]*Term is the list of its bound variables: a key with a nil "
+                  "value and an absent key are not distinguished); Rule.Apply / combine (goroutines, channels), MatchedVariables.Complete and World.Run are not translated: for them "
                   "the tie is the ordered correspondence"])
 
 CHAIN_DEPS = ["Base.v", "Chain.v", "Corr.v", "ChainProofs.v", "Generated.v"]
@@ -245,7 +247,7 @@ TOKEN_TRUSTED = ["Model/Wire.v: hand-written model of the protobuf wire format a
                  "Model/Token.v / History.v: hand-written model of builder.go / biscuit.go at the symbol-index level; tied by the history "
                  "correspondence (every op outcome, every token's D-level content, cumulative symbol table, envelope and bytes)",
                  "ed25519 as oracle tables (pub/sign computed by crypto/ed25519)"]
-prop("C07", source_level=True, coq_deps=TOKEN_DEPS + SRC_DEPS, theorems=['C07_source_default_table', 'C07_source_offset', 'C07_source_insert', 'C07_source_sym', 'C07_source_extend', 'C07_source_split_off', 'C07_source_clone', 'C07_source_len', 'C07_source_insert_spec', 'C07_varint_roundtrip', 'C07_fields_roundtrip', 'C07_block_roundtrip', 'C07_container_roundtrip', 'C07_resolve_intern', 'C07_content_build', 'C07_build_decode', 'C07_content_append', 'C07_append_decode', 'C07_reload', 'C07_reload_accepts', 'C07_version_gate', 'C07_no_capture', 'C07_operator_tables'], trusted=TOKEN_TRUSTED + [SRC_TRUSTED],
+prop("C07", source_level=True, coq_deps=TOKEN_DEPS + SRC_DEPS, theorems=['C07_source_default_table', 'C07_source_offset', 'C07_source_insert', 'C07_source_sym', 'C07_source_extend', 'C07_source_split_off', 'C07_source_clone', 'C07_source_len', 'C07_source_insert_spec', 'C07_source_is_disjoint', 'C07_varint_roundtrip', 'C07_fields_roundtrip', 'C07_block_roundtrip', 'C07_container_roundtrip', 'C07_resolve_intern', 'C07_content_build', 'C07_build_decode', 'C07_content_append', 'C07_append_decode', 'C07_reload', 'C07_reload_accepts', 'C07_version_gate', 'C07_no_capture', 'C07_operator_tables'], trusted=TOKEN_TRUSTED + [SRC_TRUSTED],
      assumptions=["tables stay below 2^32 entries (small_table), encodings below 2^64 bytes (small), supplied integers are int64 and dates "
                   "uint64 (wf_block_c): the numeric ranges of the Go types",
                   "content theorems are for a token's own blocks, each built once from CreateBlock of that token (token_inv); a block built for "
